@@ -1,5 +1,5 @@
 """C01 / C04 / C07 / C11 share the all-format write campaign (vlib/writecamp.py) and the L1 correspondence."""
-from .. import writecamp as W, handlecheck as HC, geometry as G
+from .. import writecamp as W, handlecheck as HC, geometry as G, abswrite as AW
 import os
 from ..core import Violation, VERIF
 
@@ -44,6 +44,8 @@ def in_scope(prop, j, cat):
 
 def run_common(ctx, prop, modules, stride, l1_scripts, l1_gen=None):
     if getattr(ctx, "replay", None):
+        if AW.is_replay(ctx.replay):      # a write-side record: re-run its scripts, re-judge with `sfmodel abs-write`
+            return AW.replay(ctx, ctx.replay, CATS[prop])
         return ctx.replay_script(ctx.replay)
     failed = ctx.lean_stage(modules)
     found = False
@@ -67,6 +69,7 @@ def run_common(ctx, prop, modules, stride, l1_scripts, l1_gen=None):
     # ---- B: every writable format ----
     jobs = W.make_jobs(ctx, stride=stride)
     res = W.run_jobs(ctx, jobs, updates=True)
+    AW.decide(ctx, res)       # the LEAN predicate (Sf.AbsWrite.judge) decides; the Python predicate may only add ("python predicate only")
     ctx.count(sum(len(r["job"].parts) + 4 + 3 * len(r["job"].snaps) for r in res))
     ctx.notes["allformat"] = {"jobs": len(jobs), "snapshots": sum(len(r["job"].snaps) for r in res)}
     for r in res:
@@ -87,12 +90,7 @@ def run_common(ctx, prop, modules, stride, l1_scripts, l1_gen=None):
                 continue
             reported.add(key)
             found = True
-            script = {1: r["script1"], 2: r["script2"], 3: r.get("script3", "")}[which]
-            if which == 2 and cat == "partition":
-                script = r["script1"] + "# --- the same samples, split:\n" + r["script2"]
-            ctx.violation("%s-%s-%s" % (prop.lower(), j.fmt.name, cat),
-                          "# %s violated on the implementation's own transcript\n# format %s, %d channel(s), %d Hz, %d frames of %s\n# %s\n--- script\n%s"
-                          % (prop, j.fmt.name, j.ch, j.sr, j.n, j.ty, text, script if line is None else HC.script_prefix(script, line)))
+            ctx.violation("%s-%s-%s" % (prop.lower(), j.fmt.name, cat), AW.replay_text(prop, r, cat, text))
     corr = [f for f in fa if f.kind == "corr"]
     crashes = [f for f in fa if f.kind == "crash"]
     for f in crashes[:2]:
@@ -107,19 +105,14 @@ def run_common(ctx, prop, modules, stride, l1_scripts, l1_gen=None):
             if m and int(m.group(1), 16) not in words:
                 words.append(int(m.group(1), 16))
         for w in words[:3]:
-            for r in W.run_jobs(ctx, W.focused_jobs(ctx, w), updates=True):
+            for r in AW.decide(ctx, W.run_jobs(ctx, W.focused_jobs(ctx, w), updates=True)):
                 j = r["job"]
                 for (cat, text, which, line) in r["problems"]:
                     if cat not in CATS[prop] or not in_scope(prop, j, cat) or known_class(j, cat, text) or found:
                         continue
                     found = True
-                    script = {1: r["script1"], 2: r["script2"], 3: r.get("script3", "")}[which]
-                    if which == 2 and cat == "partition":
-                        script = r["script1"] + "# --- the same samples, split:\n" + r["script2"]
                     ctx.violation("%s-%s-%s-search" % (prop.lower(), j.fmt.name, cat),
-                                  "# %s violated on the implementation's own transcript (found by the search started after the model/implementation correspondence broke on %s)\n"
-                                  "# format %s, %d channel(s), %d Hz, %d frames of %s\n# %s\n--- script\n%s"
-                                  % (prop, corr[0].name, j.fmt.name, j.ch, j.sr, j.n, j.ty, text, script if line is None else HC.script_prefix(script, line)))
+                                  AW.replay_text(prop, r, cat, "(found by the search started after the model/implementation correspondence broke on %s) %s" % (corr[0].name, text)))
             if found:
                 break
     if corr and not found:
